@@ -83,10 +83,18 @@ def paths(F, fn_path, loop_k=1, closure_k=1, tag=""):
     ex = explore.Explorer(F, loop_k=loop_k, closure_k=closure_k, stub_pred=STUBS[tag], inline_pred=INLINE.get(tag))
     ps = ex.run(fn_path)
     res = {"paths": ps, "interned": ex.interned_rev, "opaque": sorted(ex.stats["opaque"]), "inlined": sorted(ex.stats["inlined"])}
+    # the disk cache is an optimisation only: a concurrent run (another check, another tree) may prune the directory
     tmp = fname + ".%d.tmp" % os.getpid()
-    with open(tmp, "wb") as fh:
-        pickle.dump(res, fh, protocol=pickle.HIGHEST_PROTOCOL)
-    os.replace(tmp, fname)
+    try:
+        os.makedirs(d, exist_ok=True)
+        with open(tmp, "wb") as fh:
+            pickle.dump(res, fh, protocol=pickle.HIGHEST_PROTOCOL)
+        os.replace(tmp, fname)
+    except OSError:
+        try:
+            os.unlink(tmp)
+        except OSError:
+            pass
     _paths_cache[key] = res
     return res
 
@@ -112,9 +120,14 @@ def prune_path_cache(F):
     if not os.path.isdir(base):
         return
     keep = "%s-%s-%s" % (F.cfg, F.hash, engine_salt())
-    ds = sorted((os.path.getmtime(os.path.join(base, n)), n) for n in os.listdir(base) if n.startswith(F.cfg + "-"))
-    for _, n in ds[:-3]:
-        if n != keep:
+    import time
+    try:
+        ds = sorted((os.path.getmtime(os.path.join(base, n)), n) for n in os.listdir(base) if n.startswith(F.cfg + "-"))
+    except OSError:
+        return
+    now = time.time()
+    for mt, n in ds[:-3]:
+        if n != keep and now - mt > 3600:          # never a directory another run may still be using
             import shutil
             shutil.rmtree(os.path.join(base, n), ignore_errors=True)
 
